@@ -200,7 +200,7 @@ func (st *pvState) leaf(label string, v ssa.Value) {
 }
 
 var transparentRecv = map[string]bool{"Int": true, "Dec": true, "Uint": true, "Coin": true, "Coins": true, "DecCoin": true, "DecCoins": true,
-	"AccAddress": true, "ValAddress": true, "Address": true, "ConsAddress": true, "HexBytes": true, "ChainID": true, "Hash": true, "Float": true, "Rat": true}
+	"AccAddress": true, "ValAddress": true, "Address": true, "ConsAddress": true, "HexBytes": true, "ChainID": true, "Hash": true, "Float": true, "Rat": true, "Time": true, "Duration": true}
 
 var transparentFuncs = map[string]bool{
 	"NewInt": true, "NewIntFromUint64": true, "NewIntFromBigInt": true, "NewIntFromString": true, "NewUint": true, "NewDec": true, "NewDecFromInt": true,
